@@ -577,7 +577,7 @@ package gorums
 // The trusted round-trip contract of protobuf (decode(encode(m)) == m, stubs/lib.spec) holds for the
 // options the codec is created with: unknown fields are kept, decoding replaces (does not merge).
 //@ func NewCodec
-//@   props C13 C06 C07
+//@   props C13 C06 C07 C05
 //@   nopanic C13
 //@   ensures[C13.a] result != nil && !result.unmarshaler.DiscardUnknown && !result.unmarshaler.Merge
 //@   ensures[C13.a] result.unmarshaler.AllowPartial && result.marshaler.AllowPartial
@@ -1036,6 +1036,8 @@ package gorums
 //@   opt effect-tags=C12.a
 //@   opt external-ok=sendMsg,connect
 
+// C05.f: every reply is decoded into a wrapper made for it (a reused wrapper lets the status of one
+// reply leak into the next one of the same node).
 //@ func (*channel).receiver
 //@   props C05 C07 C09 C12 C10 C18 C03
 //@   mode concurrent
@@ -1043,10 +1045,14 @@ package gorums
 //@   ghost cancelled Int = 0
 //@   ghost owing Bool = false
 //@   ghost marked Bool = true
+//@   ghost usedResp (Array Int Bool) = constarr("Int", false)
 //@   loop "for {"
 //@     invariant cancelled == 0 && !owing
+//@     invariant[C05.f] forall(r, "Int", usedResp[r] ==> allocated(r))
 //@   on call "c.gorumsStream.RecvMsg"
 //@     assert[C09.f] heldR(c.streamMut)
+//@     assert[C05.f] arg0 == iface("*Message", resp) && !usedResp[resp]
+//@     set usedResp = store(usedResp, resp, true)
 //@     after set owing = res0 != nil
 //@     after set marked = res0 == nil
 //@   on call "c.streamBroken.set"
